@@ -48,6 +48,13 @@ func (self *Interpreter) statement(node ast.AnalyzedStatement) *value.Interrupt 
 		// ignore the expression value
 		_, i := self.expression(node)
 		return i
+	case ast.TriggerStatementKind:
+		// The tree-walking interpreter's executor has no way of registering triggers.
+		return value.NewRuntimeErr(
+			"Trigger statements are not supported by the tree-walking interpreter",
+			value.HostErrorKind,
+			node.Span(),
+		)
 	default:
 		panic(fmt.Sprintf("A new statement kind (%v) was added without updating this code", node.Kind()))
 	}
